@@ -138,8 +138,6 @@ def lockstep(run, rnd, thorough):
                         run.dev(max(dt / (1 + mag), dr) / amp * 1e-3)
                         if far:
                             run.notes['lockstep_far_max_dev'] = [max(a, b) for a, b in zip(run.notes.get('lockstep_far_max_dev', [0.0, 0.0]), [dt / (1 + mag), dr])]
-                            run.notes['lockstep_far_rising_runs'] = run.notes.get('lockstep_far_rising_runs', 0) + int(any(
-                                r1.iteration_results[j + 1].chi2 > r1.iteration_results[j].chi2 for j in range(len(r1.iteration_results) - 1)))
                         if name.endswith('c'):
                             run.notes['lockstep_numerical_jacobians_max_dev'] = [max(a, b) for a, b in zip(run.notes.get('lockstep_numerical_jacobians_max_dev', [0.0, 0.0]), [dt / (1 + mag), dr])]
                         # (numerical Jacobians, |t_T| <= 3e3: the frame enters through rounding of the forward difference only, ~1e-16*|t_T|/1e-6 in
